@@ -214,6 +214,8 @@ class BuildResult:
         self.audit_log = ""
         self.theorems = {}  # name -> axioms list
         self.forbidden = []
+        self.recheck_ok = True
+        self.leanchecker = None
         self.wall_s = 0.0
 
 
@@ -325,7 +327,15 @@ def audit_axioms(prop_id, theorems, res):
         res.audit_ok = False
 
 
-def build_and_audit(prop_id, extra_targets=()):
+def recheck_olean(prop_id, res):
+    """thorough tier: re-check the compiled property module (and everything it imports) with leanchecker, the
+    toolchain's independent checker of .olean files."""
+    rc, out = run(["lake", "env", "leanchecker", f"DlmsVerif.Props.{prop_id}"], cwd=LEAN_DIR, timeout=1800)
+    res.leanchecker = {"rc": rc, "tail": out[-400:]}
+    return rc == 0
+
+
+def build_and_audit(prop_id, extra_targets=(), recheck=False):
     res = BuildResult()
     t0 = time.time()
     with build_lock():
@@ -336,6 +346,8 @@ def build_and_audit(prop_id, extra_targets=()):
         names = theorem_names(props_file, f"Props.{prop_id}")
         if res.build_ok:
             audit_axioms(prop_id, names, res)
+            if recheck and not recheck_olean(prop_id, res):
+                res.recheck_ok = False
         else:
             res.theorems = {n: None for n in names}
             res.audit_ok = False
@@ -543,7 +555,7 @@ def run_check(prop, tier, seed):
     notes = []
 
     # 1-3. extract, build, audit
-    res = build_and_audit(prop.id)
+    res = build_and_audit(prop.id, recheck=(tier == "thorough" and os.environ.get("VERIF_NO_LEANCHECKER") != "1"))
     obligations_broken = []
     if not res.extract_ok:
         obligations_broken.append({"what": "extraction of Gen from /repo failed", "log": res.extract_log[-2000:]})
@@ -556,6 +568,8 @@ def run_check(prop, tier, seed):
         obligations_broken.append({"what": "axiom audit failed", "theorems": bad, "log": res.audit_log[-2000:]})
     if res.forbidden:
         obligations_broken.append({"what": "forbidden token in Lean sources", "hits": res.forbidden})
+    if not res.recheck_ok:
+        obligations_broken.append({"what": "leanchecker rejected the compiled property module", "log": (res.leanchecker or {}).get("tail")})
     if not res.driver_ok:
         raise MachineryError("driver does not build:\n" + res.build_log[-3000:])
 
@@ -660,6 +674,7 @@ def run_check(prop, tier, seed):
             "outcome_histogram": dict(sorted(stats.outcomes.items())),
             "gen_files_rewritten": res.gen_changed,
             "build_wall_s": round(res.wall_s, 2),
+            "leanchecker": res.leanchecker,
             "deepened": deep,
             "notes": notes,
             "known_findings_reported": known_lines,
